@@ -527,7 +527,8 @@ def streams(ctx: lib.Ctx) -> None:
             if k == 7 and "??" in lit:
                 continue
             if k == 7 and not re.fullmatch(
-                    r"L'(\\[^\n]{1,10}|[^\\'\n])'|static_cast<wchar_t>\(0x[0-9a-fA-F]+\)", lit):
+                    r"L'(\\([abfnrtv'\"?\\]|[0-7]{1,3}|x[0-9a-fA-F]+|u[0-9a-fA-F]{4}|U[0-9a-fA-F]{8})|[^\\'\n])'"
+                    r"|static_cast<wchar_t>\(0x[0-9a-fA-F]+\)", lit):
                 tol = True   # multi-character / unprefixed constants: accepted by g++ with a warning
             lexval.append((k, lit, r[1] if r[0] == "ok" else None, tol))
     if model_ok:
